@@ -105,6 +105,18 @@ func Make(w, h int, content, alpha string, seed int64) *image.NRGBA {
 					k = r.n(nc)
 				}
 				c = palette[k]
+			case content == "bandsH" || content == "bandsV":
+				// two statistically different regions of unequal size: the first two thirds noise, the
+				// last third a two-colour pattern (tile grids whose last row / column group is incomplete)
+				last := y*3 >= h*2
+				if content == "bandsV" {
+					last = x*3 >= w*2
+				}
+				if last {
+					c = palette[(x+y)%2]
+				} else {
+					c = color.NRGBA{uint8(r.n(256)), uint8(r.n(256)), uint8(r.n(256)), 255}
+				}
 			case content == "regionsV" || content == "regionsH" || content == "regions4":
 				// large statistically different regions whose borders fall on
 				// multiples of 16 px (entropy-image / tile-grid structure)
